@@ -44,6 +44,8 @@ class Message:
         self.trailers = []
         self.body = None
         self.scheme = "https" if cfg.is_ssl else "http"
+        # forwarder headers this peer is allowed to assert (forwarded_allow_ips)
+        self.forwarder_headers = []
         self.must_close = False
 
         # set headers limits
@@ -92,7 +94,7 @@ class Message:
               not isinstance(self.peer_addr, tuple)
               or self.peer_addr[0] in cfg.forwarded_allow_ips):
             secure_scheme_headers = cfg.secure_scheme_headers
-            forwarder_headers = cfg.forwarder_headers
+            forwarder_headers = self.forwarder_headers = cfg.forwarder_headers
 
         # Parse headers into key/value pairs paying attention
         # to continuation lines.
